@@ -1,2 +1,3 @@
 -- Root of the `PasslibVerif` library: everything that must build.
+import PasslibVerif.Props.C06
 import PasslibVerif.Props.C12
